@@ -180,7 +180,7 @@ func c08load() *c08material {
 
 var c08kinds = []string{"getblock", "header", "lookup", "account", "txs", "onetx", "shards", "config", "configparams", "libs", "runmethod", "seqno", "mcinfo", "time", "version", "sendmsg", "listtx", "shardinfo", "blockproof", "state"}
 
-var c08muts = []string{"none", "tl-truncate", "tl-mark", "tl-mark", "tl-set32", "boc-flip", "boc-set", "boc-truncate", "ids-short", "ctor-swap", "err-huge", "boc-roots", "boc-roots", "adnl-len", "adnl-dup"}
+var c08muts = []string{"none", "tl-truncate", "tl-mark", "tl-mark", "tl-set32", "boc-flip", "boc-set", "boc-truncate", "ids-short", "ctor-swap", "err-huge", "boc-roots", "boc-roots", "adnl-len", "adnl-dup", "boc-desc", "boc-desc"}
 
 // a well-formed bag of cells with one cell and no root
 var c08zeroRootBoc = []byte{0xb5, 0xee, 0x9c, 0x72, 0x01, 0x01, 0x01, 0x00, 0x00, 0x02, 0x00, 0x00}
@@ -232,6 +232,8 @@ func c08mutateBoc(b []byte, f *run.Fault) []byte {
 		}
 	case "boc-truncate":
 		out = out[:f.A*len(out)/1000]
+	case "boc-desc":
+		out = bocMutateDescriptor(out, f.A, f.B, f.C)
 	}
 	return out
 }
@@ -580,6 +582,38 @@ func execC08srv(t *testing.T, w *core.World, p *run.Plan, r *run.Result) {
 			_, _, _, err = api.GetState(ctx, bid)
 		}
 		return err
+	}
+	if p.Free {
+		// free-running (-race) mode: several callers decode honest answers at the same time; shared decoder
+		// state (caches, pooled buffers) shows up as a data race
+		var wg sync.WaitGroup
+		freeDone := false
+		w.At(0, "concurrent workload", func() {
+			for g := 0; g < 3; g++ {
+				g := g
+				wg.Add(1)
+				go func() {
+					defer wg.Done()
+					w.Tag(fmt.Sprintf("caller-%d", g))
+					for i := range p.Ops {
+						op := p.Ops[i] // same order for everybody: first decodes of a type happen at the same time
+						func() {
+							defer func() { _ = recover() }()
+							_ = call(op.Kind)
+						}()
+					}
+				}()
+			}
+			go func() {
+				wg.Wait()
+				mu.Lock()
+				freeDone = true
+				mu.Unlock()
+			}()
+		})
+		w.Run(func() bool { mu.Lock(); defer mu.Unlock(); return freeDone }, 400000, w.Now()+time.Duration(len(p.Ops)+2)*(2*timeout+5*time.Second))
+		r.Nontrivial = true
+		return
 	}
 	w.At(0, "workload", func() {
 		go func() {
